@@ -443,3 +443,59 @@ Definition cfb_problems (b : bytes) : list Z :=
   end.
 Definition cfb_check (b : bytes) : bool :=
   header_ok b && match cfb_layout b with Some L => forallb snd (cfb_conditions b L) | None => false end.
+
+(* ================================================================== Part 4: table allocation on Close; comparators *)
+(* allocSectorTables: one SAT sector per sat_per entries, MSAT sectors beyond the 109 header slots; each new table sector
+   is taken from the free list, which may itself extend the SAT.  Err 1 = fuel exhausted (would be a hang). *)
+Fixpoint alloc_tables (fuel : nat) (ss : Z) (sat msat msatlist : list Z) : result (list Z * list Z * list Z) :=
+  match fuel with
+  | O => Err 1
+  | S k =>
+      let sat_per := ast_sat_per ss in
+      let msat_per := ast_msat_per sat_per in
+      if negb (Z.rem (zlen sat) sat_per =? 0) then Panic 5 else
+      if ast_need_sat (ast_sat_sectors (zlen sat) sat_per) (zlen msat) then
+        let '(fl, sat1) := make_free ss 1 sat in
+        let s := first_of fl in
+        alloc_tables k ss (sset sat1 s secid_sat) (msat ++ [s]) msatlist
+      else if ast_need_msat (ast_msat_sectors (zlen msat) msat_per) (zlen msatlist) then
+        let '(fl, sat1) := make_free ss 1 sat in
+        let s := first_of fl in
+        alloc_tables k ss (sset sat1 s secid_msat) msat (msatlist ++ [s])
+      else Ok (sat, msat, msatlist)
+  end.
+
+(* Go string comparison: bytewise lexicographic *)
+Fixpoint bytes_ltb (a b : bytes) : bool :=
+  match a, b with
+  | _, [] => false
+  | [], _ :: _ => true
+  | x :: a', y :: b' => if x <? y then true else if y <? x then false else bytes_ltb a' b'
+  end.
+(* lessDirEnt as coded: NameLength first, then the UTF-8 form of the decoded name, case-sensitively *)
+Definition less_dirent (la lb : Z) (na nb : bytes) : bool := less_dirent_gen la lb (bytes_ltb na nb).
+
+(* unicode/utf16.Decode followed by string(): surrogate pairs combine, lone surrogates become U+FFFD *)
+Definition is_hi (u : Z) : bool := (55296 <=? u) && (u <? 56320).
+Definition is_lo (u : Z) : bool := (56320 <=? u) && (u <? 57344).
+Fixpoint utf16_decode (l : list Z) : list Z :=
+  match l with
+  | [] => []
+  | a :: r =>
+      match r with
+      | b :: r' => if is_hi a && is_lo b then (65536 + (a - 55296) * 1024 + (b - 56320)) :: utf16_decode r'
+                   else (if is_hi a || is_lo a then 65533 else a) :: utf16_decode r
+      | [] => [if is_hi a || is_lo a then 65533 else a]
+      end
+  end.
+Definition utf8_enc (r : Z) : bytes :=
+  if r <? 128 then [r]
+  else if r <? 2048 then [192 + r / 64; 128 + r mod 64]
+  else if r <? 65536 then [224 + r / 4096; 128 + (r / 64) mod 64; 128 + r mod 64]
+  else [240 + r / 262144; 128 + (r / 4096) mod 64; 128 + (r / 64) mod 64; 128 + r mod 64].
+Definition utf8_of_units (l : list Z) : bytes := concat (map utf8_enc (utf16_decode l)).
+(* relic's comparator on the UTF-16 name of an entry (NameLength = 2 * (units + terminator)) *)
+Definition relic_less (a b : list Z) : bool :=
+  less_dirent (2 * (zlen a + 1)) (2 * (zlen b + 1)) (utf8_of_units a) (utf8_of_units b).
+(* names on which case plays no role and UTF-8 is the identity *)
+Definition caseless_ascii (u : Z) : bool := (0 <=? u) && (u <? 128) && (upcase u =? u).
